@@ -107,6 +107,9 @@ def gen_isa(rnd, *, want_macros=None, small=False, allow_numeric_enum=False):
             'pre_dec': {'type': 'register', 'register': r0, 'bytecode': {'value': 2, 'size': 3},
                         'decorator': {'type': 'minus_minus', 'is_prefix': True}},
             'plain': {'type': 'register', 'register': r0, 'bytecode': {'value': 3, 'size': 3}}}}
+    opsets['imm_sl'] = {'operand_values': {
+        'imm_short': {'type': 'numeric', 'bytecode': {'value': 2, 'size': 3}, 'argument': {'size': 8, 'byte_align': True}},
+        'imm_long': {'type': 'numeric', 'bytecode': {'value': 3, 'size': 3}, 'argument': {'size': 16, 'byte_align': True}}}}
     if fmt == 'yaml':
         opsets['nenum'] = {'operand_values': {'nenum': {'type': 'numeric_enumeration', 'bytecode': {
             'size': 3, 'value_dict': {1: 1, 2: 2, 4: 3, 8: 0, 16: 5}}}}}
@@ -116,12 +119,12 @@ def gen_isa(rnd, *, want_macros=None, small=False, allow_numeric_enum=False):
         mixed['imm8'] = opsets['imm8']['operand_values']['imm8']
         opsets['src'] = {'operand_values': mixed}
 
-    kinds = ['n8', 'n16', 'm16', 'en', 'nb', 'n4', 'n12', 'adr', 'rel', 'dn']
+    kinds = ['n8', 'n16', 'm16', 'en', 'nb', 'n4', 'n12', 'adr', 'rel', 'dn', 'nsl']
     if fmt == 'yaml':
         kinds.append('ne')
     if registers:
         kinds += ['reg', 'reg', 'ir', 'src', 'xr', 'ixr', 'dreg']
-    kind_set = {'ne': 'nenum', 'adr': 'addrs', 'rel': 'rels', 'dn': 'defr', 'xr': 'xregs', 'ixr': 'ixregs', 'dreg': 'dregs',
+    kind_set = {'nsl': 'imm_sl', 'ne': 'nenum', 'adr': 'addrs', 'rel': 'rels', 'dn': 'defr', 'xr': 'xregs', 'ixr': 'ixregs', 'dreg': 'dregs',
                 'n4': 'imm4', 'n12': 'imm12', 'n8': 'imm8', 'n16': 'imm16', 'm16': 'mem16', 'en': 'enum', 'nb': 'bits', 'reg': 'regs',
                 'ir': 'iregs', 'src': 'src'}
 
@@ -141,7 +144,7 @@ def gen_isa(rnd, *, want_macros=None, small=False, allow_numeric_enum=False):
         nonlocal opcode
         opcode += 1
         # opcode field width chosen so the whole instruction is a whole number of bytes most of the time
-        code_bits = sum(3 for k in ops if k in ('reg', 'ir', 'n8', 'm16', 'en', 'nb', 'src', 'dn', 'xr', 'ixr', 'dreg', 'ne'))
+        code_bits = sum(3 for k in ops if k in ('reg', 'ir', 'n8', 'm16', 'en', 'nb', 'src', 'dn', 'xr', 'ixr', 'dreg', 'ne', 'nsl'))
         code_bits += sum({'n4': 8, 'n12': 16, 'adr': 4, 'rel': 4}.get(k, 0) for k in ops)
         size = 8 - (code_bits % 8) if code_bits % 8 else 8
         if size < 4:
@@ -347,6 +350,8 @@ class ProgGen:
             return str(rnd.randrange(0, 8))
         if kind == 'ne':
             return rnd.choice(['1', '2', '4', '8', '16', '2*2', '$10'])
+        if kind == 'nsl':
+            return num_literal(rnd, rnd.randrange(0, 200))
         if kind == 'adr':
             top = (1 << info['addr_bits']) - 1
             if self.labels and rnd.random() < 0.6:
